@@ -221,6 +221,8 @@ def main():
     tmpd = os.path.join(BUILD, "tmp", PID); os.makedirs(tmpd, exist_ok=True)
     big = ck.tier == "thorough"; rng = ck.rng
 
+    OMP = {"OMP_NUM_THREADS": "2", "OMP_WAIT_POLICY": "PASSIVE"}      # shared machine: no spinning worker threads
+
     def fragile(c):
         u = len(set(map(tuple, c["pts"])))
         return u == 1 or (c["kind"] != "kd" and u < len(c["pts"])) or len(c["pts"]) <= c["bucket"]
@@ -229,9 +231,9 @@ def main():
         """crash-prone streams (single-leaf trees, LC/KHC trees on data with duplicates) run one process per case"""
         res = [None] * len(cases)
         rob = [i for i, c in enumerate(cases) if not fragile(c)]
-        for i, r in zip(rob, run_cases(exe, [case_lines(cases[i]) for i in rob], os.path.join(tmpd, tag + "_impl.txt"))): res[i] = r
+        for i, r in zip(rob, run_cases(exe, [case_lines(cases[i]) for i in rob], os.path.join(tmpd, tag + "_impl.txt"), env=OMP)): res[i] = r
         for i, c in enumerate(cases):
-            if res[i] is None: res[i] = run_cases(exe, [case_lines(c)], os.path.join(tmpd, tag + "_impl1.txt"), timeout=60)[0]
+            if res[i] is None: res[i] = run_cases(exe, [case_lines(c)], os.path.join(tmpd, tag + "_impl1.txt"), timeout=60, env=OMP)[0]
         return res
 
     # ---- build the case list -------------------------------------------------------------------
